@@ -35,4 +35,9 @@ theorem wait_raises_after_iff (s d : Bool) : wait_for_start_raises_after s d = t
 thread runs some other event loop (the model's `closeCall true` is this branch) -/
 theorem sync_close_unregisters_off_loop : sync_close_skips_goodbyes false = false := by simp [sync_close_skips_goodbyes]
 
+/-- `async_close` swallows, around its wait for start-up, its own timeout … -/
+theorem close_wait_suppresses_timeout_holds : close_wait_suppresses_timeout = true := by decide
+/-- … and the `NotRunningException` of a close overtaken by another one during start-up (fix 25230c1; false before) -/
+theorem close_wait_suppresses_not_running_holds : close_wait_suppresses_not_running = true := by decide
+
 end Zc.GenFacts.Shutdown
